@@ -317,7 +317,8 @@ func (sc *pScn) op(w []string) {
 	case "note": // note <sid> <ref> <kp|read|recv> <seq>: {note}; never answered
 		si := at(0)
 		cli, hub := sc.topicRef(sc.sessUser[si], a[1])
-		if !sc.attached(si, hub) {
+		// a "recv" of a session that is not attached is routed by the hub (session.go:1286-1301): sent all the same
+		if !sc.attached(si, hub) && a[2] != "recv" {
 			skipped = true
 			break
 		}
